@@ -331,7 +331,7 @@ def run(key, prop, tier, seed, binary, wd):
             gk = (re.sub(r"_at_age_\d+|_age_\d+", "", m["field"]), str(m["exp"]), str(m["obs"]))
             if kind == "c11":
                 gk = (m["field"], json.dumps(rw.get("req"), sort_keys=True), "")
-            elif kind in ("c14", "c06hmac") and m["field"] in ("at_hash", "c_hash", "state_unchanged_after_refusal"):
+            elif kind in ("c14", "c06hmac") and m["field"] in ("at_hash", "c_hash", "at_hash_absent", "c_hash_absent", "state_unchanged_after_refusal"):
                 gk = (m["field"], rw.get("key", rw.get("mut", "")), rw.get("flow", rw.get("kind", "")))
             groups.setdefault(gk, []).append(m)
         for key, lst in sorted(groups.items()):
